@@ -222,6 +222,14 @@ def gen_thompson(ctx, rng):
 
 
 def run_thompson(ctx, case):
+    import warnings
+
+    with warnings.catch_warnings():
+        warnings.simplefilter("ignore")   # numpy: mean of an empty tensor when num_thompson_samples = 0
+        return _run_thompson(ctx, case)
+
+
+def _run_thompson(ctx, case):
     from math import comb as _comb
 
     from harness.cones import EXACT_CONES, real_order
@@ -320,6 +328,16 @@ def run_thompson(ctx, case):
                       "of the same mask", case, kind="F", detail={"lean": ans[:300], "numpy": want[:300]})
                 break
     ctx.count("th_prob_checked")
+    # observation (not a verdict: the property does not define "information gain"): a design that is
+    # Pareto-optimal in EVERY Thompson sample is certain, yet — because the means run over the full tensor while
+    # only strictly increasing combinations are filled — its prior probability is C(n,m)/n^m < 1 and its value > 0
+    if n >= m and n >= 2:
+        combs_ = list(itertools.combinations(range(n), m))
+        for i in range(K):
+            if combs_ and all(mask[c][i] for c in combs_):
+                ctx.count("th_certain_design_info")
+                if any(vals[j][i] > 1e-9 for j in range(m)):
+                    ctx.count("th_certain_design_positive_gain_info")
     if any(1e-12 < float(t) < float(cap) - 1e-12 for t in pri) and len({round(t, 12) for r_ in vals for t in r_}) >= 2:
         nontrivial = True
     if any(float(t) > float(cap) + 1e-12 for t in pri):
